@@ -125,6 +125,25 @@ impl Oracle for C14 {
                 max_must = max_must.max(a.height);
             }
         }
+        // a validated announced header stays pending until its block arrives or the stable
+        // height reaches it: the blocks of *other* branches do not remove it
+        if let Ok(d) = crate::props::c20::dump_unstable() {
+            for a in &w.announced {
+                if w.refm.has(&a.hash) || a.height <= sh || !connected(a.hash) {
+                    continue;
+                }
+                if d.hdr_by_hash.contains_key(&a.hash) {
+                    out.count("pending_connected_headers_found_retained");
+                } else {
+                    out.violation(
+                        "announced-header-lost",
+                        None,
+                        json!({"height": a.height, "stable_height": sh, "best_height": best_h,
+                               "note": "validated when announced, its block has not arrived, its height is above the stable height and its chain still attaches to the tree"}),
+                    );
+                }
+            }
+        }
         let must_refuse_sync = max_must > best_h + 2;
         let may_refuse_sync = max_may > best_h + 2;
         if max_must == best_h + 2 {
@@ -305,6 +324,7 @@ pub fn run(tier: &str) -> i32 {
     rep.assume("headers of discarded forks may or may not still count (C20 allows dropping them up to the moment the stable height reaches theirs): such states are 'either'");
     rep.assume("the metrics endpoint cannot complete natively (ic0.time); only 'never refused by a guard' is checked for it");
     rep.assume("mainnet/testnet canisters are not explored here: header validation needs proof of work; the guards are network independent");
+    rep.floor("pending_connected_headers_found_retained", 1000);
     rep.floor("states_at_distance_exactly_2", 50);
     rep.floor("states_at_distance_exactly_3", 50);
     rep.floor("refusals: NotSynced", 100);
